@@ -29,6 +29,9 @@ var regRenderers = []regRenderer{
 // checkReg runs one register renderer on the world's files (already written) and compares with the model.
 func checkReg(c *core.Ctx, srv *run.Server, w *World, rr regRenderer, extra []string, days gen.Log, withFoods, withTotals bool) (run.Result, bool) {
 	args := withBase(append(append([]string{}, rr.args...), extra...)...)
+	if w.Layout != "2006/01/02" {
+		args = append([]string{"--date-format", w.Layout}, args...)
+	}
 	res := srv.App1(args, nil)
 	c.Eval(1)
 	c.Count("runs_"+rr.name, 1)
@@ -58,7 +61,7 @@ func checkReg(c *core.Ctx, srv *run.Server, w *World, rr regRenderer, extra []st
 }
 
 func runC02(c *core.Ctx) {
-	c.SetRule("cases: generated (book, log) pairs - nested recipes, 0-6 days in any date order with repeats, repeated foods within a day, negative/zero quantities, foods in and not in the book, elements logged directly that also come from recipes, contributions of both signs, empty recipes, empty days; exact pool (compared exactly) and general decimals (half-unit bound); hostile file layout. Each pair x {reg default, left-aligned, old reporter} + summary DATE for every date of the log. Oracle: rational day-accounting model over the rational resolve model. Non-trivial = log with a recipe food and >= 1 total row; distinct = hash(files, renderer).")
+	c.SetRule("cases: generated (book, log) pairs - nested recipes, 0-6 days in any date order with repeats, repeated foods within a day, negative/zero quantities, foods in and not in the book, elements logged directly that also come from recipes, contributions of both signs, empty recipes, empty days; exact pool (compared exactly) and general decimals (half-unit bound); hostile file layout; five date layouts given by --date-format (headings must be printed in it). Each pair x {reg default, left-aligned, old reporter} + summary DATE for every date of the log. Oracle: rational day-accounting model over the rational resolve model. Non-trivial = log with a recipe food and >= 1 total row; distinct = hash(files, renderer).")
 	c.Assume("ingredient rows are compared as a multiset (the property does not fix their order); totals rows as an ordered list")
 	pool := newPool(c, c.Procs)
 	if pool == nil {
@@ -69,7 +72,8 @@ func runC02(c *core.Ctx) {
 	core.ParallelFor(n, c.Procs, func(wk, i int) {
 		srv := pool.Servers[wk]
 		r := c.Rng("world", i)
-		w := newWorld(r, worldOpts{Exact: i%2 == 0, Hostile: i%3 == 0, Notes: true})
+		layout := []string{"2006/01/02", "2006/01/02", "2006-01-02", "02.01.2006", "Jan 2 2006"}[r.Intn(5)]
+		w := newWorld(r, worldOpts{Exact: i%2 == 0, Hostile: i%3 == 0, Notes: true, Layout: layout})
 		srv.Write(w.Files())
 		nontrivial := false
 		for _, d := range w.Log {
@@ -85,7 +89,11 @@ func runC02(c *core.Ctx) {
 				c.Nontrivial(w.BookText, w.LogText, rr.name)
 			}
 			if i%40 == ri {
-				crossCheck(c, srv, withBase(rr.args...), nil, res)
+				cargs := withBase(rr.args...)
+				if w.Layout != "2006/01/02" {
+					cargs = append([]string{"--date-format", w.Layout}, cargs...)
+				}
+				crossCheck(c, srv, cargs, nil, res)
 			}
 			if i < 2 && ri == 0 && ok {
 				c.Sample(map[string]any{"food.yaml": w.BookText, "log.yaml": w.LogText, "args": "reg", "stdout": clip(res.Out, 1200), "exact_pool": w.Exact})
@@ -105,6 +113,9 @@ func runC02(c *core.Ctx) {
 				}
 			}
 			args := withBase("summary", d.Date.Format(w.Layout))
+			if w.Layout != "2006/01/02" {
+				args = append([]string{"--date-format", w.Layout}, args...)
+			}
 			res := srv.App1(args, nil)
 			c.Eval(1)
 			c.Count("runs_summary", 1)
